@@ -15,6 +15,7 @@
 from .worker import Worker, WorkerType, WorkerTerminatedError
 
 import os
+import time
 import queue
 import logging
 import threading
@@ -30,6 +31,7 @@ class ProcessWorker(Worker):
         self._comms = Pipe()
         self._ctrl_comms = Pipe()
         self._is_child = False
+        self._final_msg = None
         super().__init__(*args, **kwargs)
         assert not self.is_child
         self._comms.child_end.close()
@@ -73,11 +75,26 @@ class ProcessWorker(Worker):
             raise ValueError('A worker cannot wait for itself')
         if not self.is_alive():
             return True
-        self._child.join(timeout)
+        self._join_child(timeout)
         alive = self._child.is_alive()
         if not alive:
             self._dead = True
         return not alive
+
+    def _join_child(self, timeout):
+        ''' Wait for the child to exit, receiving its final message meanwhile: a child which is sending
+            a result larger than the pipe's buffer cannot exit until somebody reads it.
+        '''
+        deadline = None if timeout is None else time.monotonic() + timeout
+        if self._final_msg is None:
+            ready = mp.connection.wait([self._comms.parent_end, self._child.sentinel], timeout)
+            if self._comms.parent_end in ready:
+                try:
+                    self._final_msg = self._comms.parent_end.get()
+                except Exception:
+                    pass # nothing (valid) has been sent, _get_result will deal with what is left
+
+        self._child.join(None if deadline is None else max(0, deadline - time.monotonic()))
 
     def terminate(self, timeout=1, force=True):
         ''' Default timeout is 1 sec
@@ -121,6 +138,7 @@ class ProcessWorker(Worker):
         if self._result is None:
             #assert not self._comms[0].empty()
             #self._comms.child_end.close()
+            self._result = self._final_msg # received while waiting for the child, if any
             while True:
                 try:
                     self._result = self._comms.parent_end.get()
